@@ -19,7 +19,9 @@ AllReady(parts) == \A i \in 1..Len(parts) : parts[i][3]
 NoneReady(parts) == \A i \in 1..Len(parts) : ~parts[i][3]
 ReadyIds(parts) == {parts[i][1] : i \in {j \in 1..Len(parts) : parts[j][3]}}
 Tol == 40
-NoSetup == [gc |-> -1, parts |-> {}, t |-> 0, sig |-> {}, fires |-> 0, busy |-> FALSE, super |-> FALSE]
+NoSetup == [gc |-> -1, parts |-> {}, t |-> 0, sig |-> {}, fires |-> 0, busy |-> FALSE, super |-> FALSE,
+            rdone |-> FALSE,   \* (gate B) this set-up was taken over from a state saved when every participant had signalled
+            rsig |-> {}]       \* (gate B) the participants that signalled again at the rebuilt gate
 (* per gate: the set-ups seen so far (keyed by their sequence number in the trace; several may share a game count) and which one is current *)
 NoGate == [cur |-> -1, recs |-> <<>>, gcs |-> {}, firedGcs |-> <<>>, lastAct |-> -100000]
 G0 == [tr |-> -1, A |-> NoGate, B |-> NoGate, hasB |-> FALSE]
@@ -43,14 +45,15 @@ Upd(gg, k) ==
                           EXCEPT !.cur = t.seq, !.lastAct = t.t])
     [] t.ev = "readycall" ->
          Put(g0, t.gate, [(IF t.id \in CurRec(gt).parts /\ ~CurRec(gt).super
-                           THEN SetRec(gt, gt.cur, [CurRec(gt) EXCEPT !.sig = @ \cup {t.id}]) ELSE gt)
+                           THEN SetRec(gt, gt.cur, [CurRec(gt) EXCEPT !.sig = @ \cup {t.id}, !.rsig = @ \cup {t.id}]) ELSE gt)
                           EXCEPT !.lastAct = t.t])
     [] t.ev = "fire" ->
          Put(g0, t.gate, [(IF t.seq \in gt.gcs THEN SetRec(gt, t.seq, [Rec(gt, t.seq) EXCEPT !.fires = @ + 1]) ELSE gt)
                           EXCEPT !.firedGcs = Append(@, t.seq), !.lastAct = t.t])
     [] t.ev = "restore" ->
          Put(g0, "B", LET a == g0.A  r == CurRec(a) IN
-                      [NoGate EXCEPT !.cur = a.cur, !.gcs = {a.cur}, !.recs = [x \in {a.cur} |-> [r EXCEPT !.t = t.t, !.sig = ReadyIds(t.parts)]]])
+                      [NoGate EXCEPT !.cur = a.cur, !.gcs = {a.cur}, !.recs = [x \in {a.cur} |-> [r EXCEPT !.t = t.t, !.sig = ReadyIds(t.parts), !.rsig = {},
+                                                                                             !.rdone = (PartIds(t.parts) # {} /\ AllReady(t.parts))]]])
     [] OTHER -> g0
 
 Clause(name, ok, tag, k) == ok \/ PrintT(<<"VIOL", name, k, tag>>)
@@ -58,6 +61,11 @@ Clause(name, ok, tag, k) == ok \/ PrintT(<<"VIOL", name, k, tag>>)
 (* known finding (open unless fixed): a set-up issued while the ready group is still busy with the signals / completion
    of the previous one (less than a millisecond after the last call or callback); timestamps are microseconds *)
 BusyTag(r) == IF r.busy THEN "KF-C09-stale-signal" ELSE ""
+(* known finding (open): a gate rebuilt from a state saved when every participant of the set-up had signalled (the set-up had
+   fired, or was about to) fires that set-up when one of them signals again -- the saved state does not say whether the
+   callback has run, and the rebuilt ready group has not completed.  Signature: rebuilt gate, set-up taken over all-ready,
+   a participant has signalled again since.  (A rebuilt gate that fires WITHOUT such a signal is not this finding.)          *)
+RestoreTag(r, other) == IF r.rdone /\ r.rsig # {} THEN "KF-C09-restore-after-fire" ELSE other
 
 CheckLine(k, gg) ==
   LET t == Trace[k]
@@ -75,15 +83,15 @@ CheckLine(k, gg) ==
        LET r == Rec(gt, t.seq) IN        \* (the set-up a fire belongs to is named by the participants' indexes, see vh gate)
        /\ Clause("C09_fireKnownSetup", t.seq \in gt.gcs, BusyTag(c), k)
        /\ t.seq \in gt.gcs =>
-            /\ Clause("C09_fireOnce", r.fires = 0, BusyTag(c), k)
+            /\ Clause("C09_fireOnce", r.fires = 0, RestoreTag(r, BusyTag(c)), k)
             /\ Clause("C09_fireReportsGc", t.gc = r.gc, BusyTag(c), k)
             /\ Clause("C09_fireReportsSetup", PartIds(t.parts) = r.parts /\ AllReady(t.parts), BusyTag(c), k)
             /\ Clause("C09_fireLegal", r.parts \subseteq r.sig \/ (~r.super /\ t.t - r.t >= t.toms * 1000 - Tol * 1000), BusyTag(c), k)
   /\ Clause("C09_callsReturn", t.ev # "hang", IF t.mode = "racy" THEN "KF-C09-stale-signal" ELSE "", k)
   /\ t.ev = "end" =>
-       /\ Clause("C09_firedByQuiescence", c.parts # {} => c.fires = 1, BusyTag(c), k)
+       /\ Clause("C09_firedByQuiescence", c.parts # {} => c.fires = 1, RestoreTag(c, BusyTag(c)), k)
        /\ (t.gate = "B" /\ g0.hasB) =>
-            Clause("C09_restoreAgrees", CurRec(g0.B).fires = CurRec(g0.A).fires, "", k)
+            Clause("C09_restoreAgrees", CurRec(g0.B).fires = CurRec(g0.A).fires, RestoreTag(CurRec(g0.B), ""), k)
 
 Init == l = 1 /\ g = G0
 Next == l <= Len(Trace) /\ l' = l + 1 /\ g' = Upd(g, l)
